@@ -1171,6 +1171,12 @@ def run(ctx):
         'bidict / dict semantics and engineio.generate_id() never repeating an id (as in C03)',
         'python-engineio queues a packet on the addressed socket; one transport lives on one host',
     ])
+    if ctx.thorough:
+        ok, out = C.leanchecker(['Sio.Props.C07'])
+        ctx.notes.append('leanchecker Sio.Props.C07: %s' % ('ok' if ok else 'FAILED'))
+        if not ok:
+            ctx.violation('proof', 'leanchecker rejected Sio.Props.C07: ' + out, {'theorem_or_build': out},
+                          no_input=True)
     rng = ctx.rng
     n_hist = ctx.scale(1400, 20000)
     deadline = ctx.t0 + ctx.scale(60, 560)
